@@ -72,7 +72,9 @@ def oracle(ctx):
     for lab, n in starts.items():
         if n > 1:
             v.append({"kind": "stage-started-more-than-once", "stage": lab, "starts": n, "sig": "started-twice"})
-    rows = [(0, r[0], r[1], r[2], r[3]) for r in ctx["audit"]]
+    # a durable re-arm (-> NOT_STARTED) is legal only while a JumpToStage / RestartStage is handled; the trigger rows of
+    # a concurrent section do not say which handler wrote them, so re-arm rows are left to C06's E1 exploration
+    rows = [(0, r[0], r[1], r[2], r[3]) for r in ctx["audit"] if r[3] != "NOT_STARTED"]
     v.extend(check_audit_rows(rows, None, {}))
     return v
 
